@@ -72,3 +72,108 @@ for T, S, MIN, MAX, LOWEST in TYPES:
         no_flags=['--signed-overflow-check'],
         inst='T=' + T,
         says='identity of the sum reducer (GAccumulator): x + id == x == id + x for every %sx' % ('finite ' if isf else '')))
+
+# ---------------------------------------------------------------------------
+# Reducible<T,MergeFunc,IdFunc> / GAccumulator<T>: per-thread slots.
+# PerThreadStorage<T> is modelled as an array of GV_MAXT slots (thread count n
+# <= GV_MAXT = 16 is a bound on the CONFIGURATION, not on the history);
+# getLocal() is the slot of the calling thread, getRemote(i) slot i.
+GV_MAXT = 16
+INSTS = [  # (suffix, T, merge expression / callee, identity callee, uses)
+    ('plus_u64', 'uint64_t', '#define MERGE(a, b) ((a) + (b))   /* std::plus<T> */\n#define MERGE_SPEC(a, b) ((a) + (b))', 'identity_value_zero_u64', []),
+    ('max_i64', 'int64_t', '#define MERGE(a, b) gmax_i64((a), (b))\n#define MERGE_SPEC(a, b) ((a) < (b) ? (b) : (a))   /* = the proved contract of gmax */', 'identity_value_min_i64', ['gmax_i64']),
+    ('max_f64', 'double', '#define MERGE(a, b) gmax_f64((a), (b))\n#define MERGE_SPEC(a, b) ((a) < (b) ? (b) : (a))', 'identity_value_min_f64', ['gmax_f64']),
+]
+for SFX, T, MERGE, IDF, USES in INSTS:
+    S = SFX.split('_')[1]
+    REDP = '''
+#define GV_MAXT %du
+struct Red { %s data[GV_MAXT]; unsigned n; };
+unsigned g_tid;   /* the calling thread */
+unsigned g_s;     /* ghost probe slot */
+%s
+#define IDENT() %s()
+#define GV_MOVE(x) (x)
+static inline %s* red_remote(struct Red* r, unsigned i) { __CPROVER_assert(i < r->n, "getRemote: thread id in range"); return &r->data[i]; }
+static inline %s* red_local(struct Red* r) { return &r->data[g_tid]; }
+%s g_ident;  /* ghost: the identity value (IdFunc()) */
+#define RED_OK(r) (g_ident == IDENT() && __CPROVER_is_fresh(r, sizeof(*(r))) && (r)->n >= 1 && (r)->n <= GV_MAXT && g_tid < (r)->n)
+''' % (GV_MAXT, T, MERGE, IDF, T, T, T)
+    nonan = ' && *lhs == *lhs && rhs == rhs' if S == 'f64' else ''
+    nf = ['--signed-overflow-check'] if S != 'f64' else []
+    UNITS.append(Unit(
+        name='Reducible_merge_' + SFX, src=RED, within=r'class Reducible\b', anchor=r'void merge\(T& lhs, const T& rhs\)',
+        proto='void Reducible_merge_%s(struct Red* self, %s* lhs, %s rhs)' % (SFX, T, T),
+        contract='__CPROVER_requires(__CPROVER_is_fresh(lhs, sizeof(*lhs))%s)\n__CPROVER_ensures(*lhs == MERGE_SPEC(__CPROVER_old(*lhs), rhs))\n__CPROVER_assigns(*lhs)' % nonan,
+        prelude=[REDP], uses=USES + [IDF],
+        lower=[rx(r'(?<![\w*])lhs(?![\w])', '(*lhs)', 2, 2), ren('MergeFunc::operator()', 'MERGE')],
+        inst='T=%s, MergeFunc/IdFunc = %s' % (T, SFX), says='merge(lhs, rhs): lhs becomes MergeFunc(lhs, rhs)'))
+    UNITS.append(Unit(
+        name='Reducible_merge_move_' + SFX, src=RED, within=r'class Reducible\b', anchor=r'void merge\(T& lhs, T&& rhs\)',
+        proto='void Reducible_merge_move_%s(struct Red* self, %s* lhs, %s rhs)' % (SFX, T, T),
+        contract='__CPROVER_requires(__CPROVER_is_fresh(lhs, sizeof(*lhs))%s)\n__CPROVER_ensures(*lhs == MERGE_SPEC(__CPROVER_old(*lhs), rhs))\n__CPROVER_assigns(*lhs)' % nonan,
+        prelude=[REDP], uses=USES + [IDF],
+        lower=[rx(r'(?<![\w*])lhs(?![\w])', '(*lhs)', 2, 2), ren('MergeFunc::operator()', 'MERGE'),
+               ren('std::move', 'GV_MOVE', 3), rx(r'T v\{(.*)\};', r'%s v = \1;' % T, 1, 1)],
+        inst='T=%s (trivially movable: std::move is the identity)' % T, says='moving merge: lhs becomes MergeFunc(lhs, rhs)'))
+    UNITS.append(Unit(
+        name='Reducible_update_' + SFX, src=RED, within=r'class Reducible\b', anchor=r'void update\(const T& rhs\)',
+        proto='void Reducible_update_%s(struct Red* self, %s rhs)' % (SFX, T),
+        contract='''__CPROVER_requires(RED_OK(self)%s)
+__CPROVER_ensures(self->data[g_tid] == MERGE_SPEC(__CPROVER_old(self->data[g_tid]), rhs))
+__CPROVER_ensures((g_s < GV_MAXT && g_s != g_tid) ==> self->data[g_s] == __CPROVER_old(self->data[g_s]))
+__CPROVER_assigns(self->data[g_tid])''' % (' && self->data[g_tid] == self->data[g_tid] && rhs == rhs' if S == 'f64' else ''),
+        prelude=[REDP], uses=USES + [IDF],
+        inline=['Reducible_merge_' + SFX],
+        lower=[rx(r'merge\(\*data_\.getLocal\(\), rhs\)', 'Reducible_merge_%s(self, red_local(self), rhs)' % SFX, 1, 1)],
+        no_flags=nf,
+        inst='T=%s' % T, says='update(x) merges x into the calling thread\'s slot and touches no other slot'))
+    # reduce(): fold of all slots, slots 1.. reset to the identity
+    FOLD_REQ = '''RED_OK(self) && g_tid == 0 && g_pf[0] == self->data[0] &&
+  __CPROVER_forall { unsigned j; (j < GV_MAXT) ==> (g_d0[j] == self->data[j]%s) } &&
+  __CPROVER_forall { unsigned k; (k < GV_MAXT - 1) ==> ((k + 1 < self->n) ==> g_pf[k + 1] == MERGE_SPEC(g_pf[k], self->data[k + 1])) }''' % (' && self->data[j] == self->data[j]' if S == 'f64' else '')
+    UNITS.append(Unit(
+        name='Reducible_reduce_' + SFX, src=RED, within=r'class Reducible\b', anchor=r'T& reduce\(\)',
+        proto='%s* Reducible_reduce_%s(struct Red* self)' % (T, SFX),
+        contract='''__CPROVER_requires(%s)
+__CPROVER_ensures(__CPROVER_return_value == &self->data[0] && self->data[0] == g_pf[self->n - 1])
+__CPROVER_ensures(__CPROVER_forall { unsigned m; (m < GV_MAXT) ==> ((1 <= m && m < self->n) ==> self->data[m] == g_ident) })
+__CPROVER_assigns(__CPROVER_object_whole(self))''' % FOLD_REQ,
+        prelude=[REDP, '%s g_pf[GV_MAXT], g_d0[GV_MAXT];  /* ghost: partial folds of the entry slots, entry slots */\n' % T],
+        uses=USES + [IDF], inline=['Reducible_merge_move_' + SFX],
+        lower=[rx(r'T& lhs = \*data_\.getLocal\(\);', '%s* lhs_p = red_local(self);' % T, 1, 1),
+               rx(r'T& rhs = \*data_\.getRemote\(i\);', '%s* rhs_p = red_remote(self, i);' % T, 1, 1),
+               rx(r'data_\.size\(\)', 'self->n', 1, 1),
+               rx(r'merge\(lhs, std::move\(rhs\)\)', 'Reducible_merge_move_%s(self, lhs_p, *rhs_p)' % SFX, 1, 1),
+               rx(r'(?<![\w*])rhs = IdFunc::operator\(\)\(\)', '*rhs_p = IDENT()', 1, 1),
+               rx(r'return lhs;', 'return lhs_p;', 1, 1)],
+        loops={1: '''
+__CPROVER_assigns(i, __CPROVER_object_whole(self))
+__CPROVER_loop_invariant(1 <= i && i <= self->n && self->n <= GV_MAXT && self->n >= 1 && lhs_p == &self->data[0] && g_tid == 0 && g_ident == gid)
+__CPROVER_loop_invariant(self->data[0] == g_pf[i - 1])
+__CPROVER_loop_invariant(__CPROVER_forall { unsigned a; (a < GV_MAXT) ==> ((1 <= a && a < i) ==> self->data[a] == g_ident) })
+__CPROVER_loop_invariant(__CPROVER_forall { unsigned b; (b < GV_MAXT) ==> ((i <= b && b < self->n) ==> self->data[b] == g_d0[b]) })
+__CPROVER_decreases(self->n - i)
+'''},
+        no_flags=nf, timeout=300, ghost_prefix='const %s gid = g_ident;' % T,
+        inst='T=%s, thread count <= %d (configuration bound); called from thread 0 (outside the parallel region)' % (T, GV_MAXT),
+        says='reduce() returns the left fold of all per-thread slots with the merge function, however the updates were distributed, and resets slots 1..n-1 to the identity',
+        trusted=['PerThreadStorage<T> modelled as an array of n <= 16 slots (red_local/red_remote in the prelude)']))
+    UNITS.append(Unit(
+        name='Reducible_reset_' + SFX, src=RED, within=r'class Reducible\b', anchor=r'void reset\(\)',
+        proto='void Reducible_reset_%s(struct Red* self)' % SFX,
+        contract='''__CPROVER_requires(RED_OK(self))
+__CPROVER_ensures(__CPROVER_forall { unsigned m; (m < GV_MAXT) ==> (m < self->n ==> self->data[m] == g_ident) })
+__CPROVER_assigns(__CPROVER_object_whole(self))''',
+        prelude=[REDP], uses=USES + [IDF],
+        lower=[rx(r'data_\.size\(\)', 'self->n', 1, 1),
+               rx(r'\*data_\.getRemote\(i\) = IdFunc::operator\(\)\(\)', '*red_remote(self, i) = IDENT()', 1, 1)],
+        loops={1: '''
+__CPROVER_assigns(i, __CPROVER_object_whole(self))
+__CPROVER_loop_invariant(i <= self->n && self->n <= GV_MAXT && self->n >= 1 && g_ident == gid)
+__CPROVER_loop_invariant(__CPROVER_forall { unsigned a; (a < GV_MAXT) ==> (a < i ==> self->data[a] == g_ident) })
+__CPROVER_decreases(self->n - i)
+'''},
+        ghost_prefix='const %s gid = g_ident;' % T,
+        inst='T=%s, thread count <= %d' % (T, GV_MAXT),
+        says='reset() restores the identity in every slot'))
